@@ -198,6 +198,9 @@ class _Filterer(object):
         return False
 
     def _all_op(self, doc_val, search_val):
+        if isinstance(search_val, (list, tuple)) and not search_val:
+            # An empty $all array matches no document.
+            return False
         if isinstance(doc_val, list) and doc_val and isinstance(doc_val[0], list):
             doc_val = list(itertools.chain.from_iterable(doc_val))
         dv = _force_list(doc_val)
